@@ -37,7 +37,8 @@ type Disk struct {
 	SnapConf            *pb.ConfState
 	Ents                []dEnt // Ents[i].Index == SnapIndex+1+i
 
-	Buf []dWrite
+	Buf     []dWrite
+	SplitHS bool
 
 	// durable application state
 	DurApplied uint64
@@ -156,14 +157,21 @@ func (d *Disk) flush(k int) {
 }
 
 // write performs one write; sync=true flushes the buffer first (WAL order).
+// With SplitHS the hard state lives in a file of its own: a synced write of
+// log entries alone does not make earlier unsynced hard-state writes durable.
 func (d *Disk) write(es []*pb.Entry, hs *pb.HardState, sync bool) {
 	if hs != nil && raft.IsEmptyHardState(hs) {
 		hs = nil
 	}
 	if len(es) == 0 && hs == nil {
-		if sync {
+		if sync && !d.SplitHS {
 			d.flush(len(d.Buf))
 		}
+		return
+	}
+	if d.SplitHS && sync && hs == nil {
+		// entries go straight to the log file; buffered hard states stay buffered
+		d.appendSynced(es)
 		return
 	}
 	w := dWrite{ents: cloneEnts(es)}
